@@ -163,3 +163,60 @@ for _n in (1, 2, 3):
             vc.ensure("outputs_appended_in_order", list(state.get("outputs", [])) == results or all(a is b for a, b in zip(state.get("outputs", []), results)) and len(state.get("outputs", [])) == _n)
             vc.ensure("returns_the_inputs_of_the_final_entry", out is final)
         obligation(f"C01.evaluate.entries{_n}.{'module_fn' if _fn else 'direct'}", "C01", ["cirkit/backend/torch/graph/modules.py:TorchDiAcyclicGraph.evaluate"])(_h)
+
+
+# ------------------------------------------------------------------------------------------------ parameter graphs (C14: composition of nodes)
+PP = "cirkit/backend/torch/parameters/parameter.py"
+
+for _ops in ((1,), (2,), (1, 1), (2, 1)):
+    for _ident in (False, True):
+        def _h(vc, _ops=_ops, _ident=_ident):
+            """ParameterAddressBook.lookup, one entry: operand h of a (folded) node is cat(outputs of in_module_ids[h])[in_fold_idx[h]]; `()` takes the
+            tensor as it is.  One operand per input of the node, in order; outputs of earlier nodes only."""
+            F, A, Bd = (vc.int(n, lo=1) for n in ("F", "A", "B"))
+            outs, ids, idxs, want = [vc.tensor("unrelated_earlier_output", (vc.int("Fu", lo=1), A, Bd))], [], [], []
+            for h, nm in enumerate(_ops):
+                Fs = [vc.int(f"F{h}_{j}", lo=1) for j in range(nm)]
+                ts = [vc.tensor(f"out{h}_{j}", (Fs[j], A, Bd)) for j in range(nm)]
+                ids.append([len(outs) + j for j in range(nm)])
+                outs.extend(ts)
+                total = Fs[0] if nm == 1 else Fs[0] + Fs[1]
+                if _ident and h == 0:
+                    idxs.append(())
+                    want.append((ts, Fs, None, total))
+                else:
+                    ix = vc.tensor(f"idx{h}", (F,), "long")
+                    a = z3.Int(f"a_rng{h}")
+                    vc.assume(z3.ForAll([a], z3.And(ix.elem([a]) >= 0, ix.elem([a]) < total)))
+                    idxs.append(ix)
+                    want.append((ts, Fs, ix, total))
+            node = Opaque("node")
+            loc = {"self": Opaque("address_book"), "module_outputs": outs, "in_graph": None}
+            entry = vc.new(f"{GM}:AddressBookEntry", node, ids, idxs)
+            # the helper closure _select_index is defined before the loop: run the prefix first
+            vc.run_prefix(f"{PP}:ParameterAddressBook.lookup", loc)
+            vc.run_loop_body(f"{PP}:ParameterAddressBook.lookup", loc, entry)
+            ys = list(vc.last_yields)
+            ok = len(ys) == 1 and ys[0][0] is node and isinstance(ys[0][1], tuple) and len(ys[0][1]) == len(_ops)
+            vc.ensure("yields_the_node_with_one_operand_per_input", ok)
+            if not ok:
+                return
+            for h, (x, (ts, Fs, ix, total)) in enumerate(zip(ys[0][1], want)):
+                nf = total if ix is None else F
+                if not shape_is(vc, x, [nf, A, Bd], f"operand{h}.shape"):
+                    continue
+                f, a, b = vc.index_consts([nf, A, Bd], f"o{h}")
+                i = f if ix is None else ix.elem([f])
+                src = ts[0].elem([i, a, b]) if len(ts) == 1 else z3.If(i < Fs[0], ts[0].elem([i, a, b]), ts[1].elem([i - Fs[0], a, b]))
+                vc.ensure(f"operand{h}.fold_f_is_the_indexed_fold_of_the_stacked_outputs_of_its_own_input_nodes", x.elem([f, a, b]) == src)
+        obligation(f"C14.lookup.step.operands{'_'.join(map(str, _ops))}.{'identity' if _ident else 'indexed'}", "C14", [f"{PP}:ParameterAddressBook.lookup"])(_h)
+
+
+@obligation("C14.lookup.step.leaf_node", "C14", [f"{PP}:ParameterAddressBook.lookup"])
+def _(vc):
+    node = Opaque("leaf")
+    loc = {"self": Opaque("address_book"), "module_outputs": [], "in_graph": None}
+    vc.run_prefix(f"{PP}:ParameterAddressBook.lookup", loc)
+    vc.run_loop_body(f"{PP}:ParameterAddressBook.lookup", loc, vc.new(f"{GM}:AddressBookEntry", node, [], []))
+    ys = list(vc.last_yields)
+    vc.ensure("nodes_without_inputs_get_no_operand", len(ys) == 1 and ys[0][0] is node and ys[0][1] == ())
